@@ -6,7 +6,8 @@ import treelib as T
 PID = "C08"
 LEVEL = "proof"
 COQ_TARGETS = ["Props/C08.vo"]
-THEOREMS = []   # filled from Props/C08.v at run time (all Print Assumptions statements are required to succeed)
+THEOREMS = ["C08_nonvacuous", "C08_new_errors", "C08_shape", "C08_odds_range", "C08_mass", "C08_weights_roundtrip",
+            "C08_pick_count", "C08_pair_count", "C08_zero_never", "C08_pick_in_range", "C08_lemire_in_range"]
 TRUSTED_BASE = [
     "Coq 8.16.1 kernel + vm_compute",
     "hand-written model coq/Model/Alias.v of src/weighted/weighted_alias.rs (integer weight types; the two intrusive "
